@@ -263,7 +263,7 @@ def read_meta_image_from_fileobj(f: io.BufferedReader) -> Tuple[np.ndarray, Meta
     # read image from file
     shape = np.asarray(meta["DimSize"]).copy()[::-1]
     if (meta.get("ElementNumberOfChannels") or 1) > 1:
-        shape = np.r_[shape, meta["ElementNumberOfChannels"]]
+        shape = np.r_[shape, int(meta["ElementNumberOfChannels"])]
     else:
         meta["ElementNumberOfChannels"] = 1
     element_size = np.dtype(meta["ElementType"]).itemsize
